@@ -264,6 +264,7 @@ type c18OpResult struct {
 type c18ScnResult struct {
 	Ops       []c18OpResult
 	Lines     [][2]string // model op line, observed canonical output
+	BehSeen   [][]string  // per op: behaviours the auctioneer applied to commitments
 	BadKey    string
 	Bad       []string // oracle failures
 	Trace     []string
@@ -535,6 +536,7 @@ func c18RunScenario(scn c18Scn, uniq int) *c18ScnResult {
 		}
 		chaos := false
 		srv.mu.Lock()
+		var behSeen []string
 		{
 			firstCommit := true
 			for i := first; i < len(srv.streams); i++ {
@@ -546,6 +548,7 @@ func c18RunScenario(scn c18Scn, uniq int) *c18ScnResult {
 				for _, c := range st.commits[from:] {
 					direct := firstCommit && op.Kind == "sub"
 					firstCommit = false
+					behSeen = append(behSeen, c.beh)
 					if !direct && (c.beh == c18BehShutBC || c.beh == c18BehShutAC) {
 						chaos = true
 					}
@@ -553,6 +556,7 @@ func c18RunScenario(scn c18Scn, uniq int) *c18ScnResult {
 			}
 		}
 		srv.mu.Unlock()
+		res.BehSeen = append(res.BehSeen, behSeen)
 		if modelled {
 			// re-subscription loops = streams opened during the op,
 			// except the one a first connect opens for the direct handshake
@@ -803,6 +807,22 @@ func c18Clients(r *Run, scns []c18Scn) {
 	for i, res := range results {
 		r.Evaluations++
 		r.Count("client/scenario")
+		for j, op := range scns[i].Ops {
+			if j >= len(res.Ops) {
+				break
+			}
+			r.Count("client/op/" + op.Kind)
+			or := res.Ops[j]
+			if or.Attempts > or.NewStreams {
+				r.Count("client/refused-connects")
+			}
+			if op.Kind != "sub" && or.NewStreams == 1 && len(or.HandlerRes) <= 1 && or.Alive && len(or.Cur) > 0 {
+				r.Count("client/resub-clean")
+			}
+			for _, b := range res.BehSeen[j] {
+				r.Count("client/beh/" + b)
+			}
+		}
 		r.Distinct(strings.Join(res.Trace, ";"))
 		if i < 2 {
 			r.Sample(res.Trace)
